@@ -8,6 +8,7 @@ CONSTANTS
   AssignImpl = "fixed"
   WM = 12
   ConstructSlots <- Only1
+  Unbounded = FALSE
   Ops <- ConvOps
 INVARIANTS TypeOK Refines NoAlias NoUseAfterFree NoDoubleFree NoLeak ConfigKept RoundTrip
 PROPERTIES SourceUnchanged
